@@ -54,7 +54,8 @@ def gen_item(r, cx, lang_pair=True):
         o = r.choice([('count(*)', 'count(*)'), ('MAX(a1)', 'MAX(a1)'), ('ARRAY_AGG(a2)', 'ARRAY_AGG(a2)'), ('COUNT( * )', 'COUNT( * )')])
         return '(7)', o[0], o[1]
     o = r.choice([('a1 + "x"', 'a1 + "x"'), ('"lit"', '"lit"'), ('NR + 1', 'NR + 1'), ('[a1, a2][0]', '[a1, a2][0]'), ('"a,b" + a1', '"a,b" + a1'),
-                  ('len(a1)', 'a1.length'), ('max(NR, 2)', 'Math.max(NR, 2)'), ('(a1 + a2)', '(a1 + a2)'), ('{"k": [1, 2]}["k"][0]', '({"k": [1, 2]})["k"][0]'), ('12', '12')])
+                  ('len(a1)', 'a1.length'), ('max(NR, 2)', 'Math.max(NR, 2)'), ('(a1 + a2)', '(a1 + a2)'), ('{"k": [1, 2]}["k"][0]', '({"k": [1, 2]})["k"][0]'), ('12', '12'),
+                  ('(a1, a2)', '[a1, a2]'), ('(a1, a2)', '[a1, a2]')])      # ONE item whose value is a tuple / an array
     return '(7)', o[0], o[1]
 
 
